@@ -51,7 +51,9 @@ def mh_params(draw):
     if k == "FloatList":
         return ["FloatList", draw(st.lists(st.sampled_from([-1.0, 0.0, 0.5, 2.5, 1e9]), min_size=1, max_size=4))]
     if k == "VarRange":
-        return ["VarRange", draw(st.lists(st.sampled_from(["x", "y", "z", "w"]), min_size=1, max_size=4))]
+        # options are usually names, but any values are accepted (geml passes class labels, i.e. ints)
+        pool = draw(st.sampled_from([["x", "y", "z", "w"], ["x", "y", "z", "w"], [0, 1, 2, 7], [0.5, 2.0, -1.0], [True, False], ["1", 1, 1.5], ["", "a"]]))
+        return ["VarRange", draw(st.lists(st.sampled_from(pool), min_size=1, max_size=4))]
     if k in ("ListSizeBetween", "LSBWLO"):
         a = draw(st.integers(0, 4))
         return [k, a, a + draw(st.integers(0, 4))]
